@@ -18,8 +18,8 @@ ASSUMPTIONS = ['ties at a pruning boundary (k-th vs (k+1)-th candidate within 1e
                'the reference search re-ranks only on frames that offer at least one candidate symbol, as the statement\'s "per-frame symbol pre-selection" implies for frames with none',
                'brute force over all alignments only for C^T <= 4096']
 N = {'quick': 3000, 'thorough': 200000}
-CLASSES = ['rand', 'peaky', 'onehot', 'zeros', 'allpruned', 'repeats', 'const', 'twolevel', 'unpruned_small', 'unnormalised']
-REQUIRED = ['bestfirst_selector_decodes', 'decodes', 'overcount_checked', 'beam_compared', 'unpruned_compared', 'frames_monitored', 'frames_pruned', 'joins_observed', 'guard_checked']
+CLASSES = ['rand', 'peaky', 'onehot', 'zeros', 'allpruned', 'repeats', 'const', 'twolevel', 'unpruned_small', 'unnormalised', 'threshold']
+REQUIRED = ['long_lived_decoder_reused', 'alphabets_with_white_space', 'threshold_symbols', 'bestfirst_selector_decodes', 'decodes', 'overcount_checked', 'beam_compared', 'unpruned_compared', 'frames_monitored', 'frames_pruned', 'joins_observed', 'guard_checked']
 EXHAUSTIVE_KEY = 'exhaustive_matrices'
 EXHAUSTIVE_NOTE = 'all matrices with two-level rows (weights in {1,2}), C = 3, T <= 2 (quick) / T <= 3 (thorough), every k in {1,2,3,50}, both selectors'
 KS = [1, 2, 3, 5, 8, 50]
@@ -40,6 +40,7 @@ def setup(ctx):
     from vf import hooks
     ctx.D = decoders
     ctx.rec = []
+    ctx.long_lived = {}
 
     def mk_topk(f):
         def w(a, k, reverse=False):
@@ -88,6 +89,21 @@ def make_matrix(rng, kind, T, C):
         for t in range(T):
             p[t, sym if rng.random() < 0.6 else C - 1] = 1.0
         p += rng.random((T, C)) * 0.05
+    elif kind == 'threshold':
+        # non-blank symbols sitting exactly on the pre-selection threshold (log-probability bit-equal to -10.0) or one ulp beside it
+        lp = np.empty((T, C))
+        for t in range(T):
+            on = rng.random(C) < 0.5
+            on[-1] = False
+            if on.sum() == C - 1 and rng.random() < 0.5:
+                pass                                     # every non-blank symbol on the threshold: a blank-only frame for a strict '>' rule
+            vals = np.where(on, rng.choice([-10.0, np.nextafter(-10.0, 0), np.nextafter(-10.0, -20)], size=C), 0.0)
+            rest = rng.random(C) + 0.05
+            rest[on] = 0
+            rest = rest / rest.sum() * (1.0 - np.exp(vals[on]).sum())
+            with np.errstate(divide='ignore'):
+                lp[t] = np.where(on, vals, np.log(rest))
+        return lp
     elif kind == 'const':
         p = np.ones((T, C))
     elif kind == 'twolevel':
@@ -118,6 +134,9 @@ def gen(rng, i, ctx):
         kind = str(rng.choice(['rand', 'zeros', 'twolevel', 'onehot', 'repeats', 'const']))
     if cls == 'unnormalised':
         kind = 'rand'
+    if cls == 'threshold':
+        default_sel = True
+        k = int(rng.choice([3, 8, 50]))
     lp = make_matrix(rng, kind, T, C)
     case = {'cls': cls, 'lp': lp, 'k': k, 'default_selector': default_sel}
     if cls == 'unnormalised':
@@ -182,12 +201,25 @@ def decode_and_check(lp, k, default_sel, mon, ctx, info, compare_beam=True):
     D = ctx.D
     C = lp.shape[1]
     letters = [chr(0x61 + c) for c in range(C - 1)]
+    # real alphabets contain white space: as the first or the last symbol in two thirds of the decodes
+    alpha = (int(lp.shape[0]) + C) % 3
+    if alpha == 1:
+        letters[0] = ' '
+        mon.count('alphabets_with_white_space')
+    elif alpha == 2:
+        letters[-1] = ' '
+        mon.count('alphabets_with_white_space')
+    bestfirst = bool((int(lp.shape[0]) + k) % 2)
+
+    def make():
+        if default_sel:
+            return D.CTCPrefixLogRawNumpyDecoder(letters + [D.BLANK_SYMBOL], k=k)
+        return D.CTCPrefixLogRawNumpyDecoder(letters + [D.BLANK_SYMBOL], k=k, relevant_logits_selector=nonpruning_bestfirst if bestfirst else nonpruning)
+    dec = make()
     if default_sel:
-        dec = D.CTCPrefixLogRawNumpyDecoder(letters + [D.BLANK_SYMBOL], k=k)
         selector = lambda row, c: row[c] > -10
     else:
-        dec = D.CTCPrefixLogRawNumpyDecoder(letters + [D.BLANK_SYMBOL], k=k, relevant_logits_selector=nonpruning_bestfirst if (int(lp.shape[0]) + k) % 2 else nonpruning)
-        if (int(lp.shape[0]) + k) % 2:
+        if bestfirst:
             mon.count('bestfirst_selector_decodes')
         selector = lambda row, c: row[c] > -np.inf
     del ctx.rec[:]
@@ -198,6 +230,22 @@ def decode_and_check(lp, k, default_sel, mon, ctx, info, compare_beam=True):
         return None
     mon.count('decodes')
     hyps = [(h.transcript, float(h.vis_sc)) for h in boh]
+    # history: a decoder object that has decoded other matrices before (decode_page keeps one for the whole run) returns the same bag
+    key = (tuple(letters), k, default_sel, bestfirst)
+    old = ctx.long_lived.get(key)
+    if old is None:
+        old = ctx.long_lived[key] = make()
+    else:
+        mon.count('long_lived_decoder_reused')
+    rec_keep = list(ctx.rec)
+    try:
+        hyps_old = [(h.transcript, float(h.vis_sc)) for h in old(lp.copy())]
+    except Exception as e:
+        hyps_old = repr(e)[:300]
+    ctx.rec[:] = rec_keep
+    mon.count('long_lived_decoder_decodes')
+    if hyps_old != hyps:
+        mon.violation('decode-independent-of-earlier-decodes', dict(info, fresh_decoder=hyps[:6], long_lived_decoder=hyps_old[:6] if isinstance(hyps_old, list) else hyps_old))
     mon.observe('hypotheses', [(t, round(v, 9)) for t, v in hyps])
     pruned_any = check_frames(list(ctx.rec), k, mon, info)
     if len(set(t for t, _ in hyps)) != len(hyps):
@@ -248,6 +296,8 @@ def check(case, mon, ctx):
                 pass
         mon.mark_nontrivial()
         return
+    if case['cls'] == 'threshold':
+        mon.count('threshold_symbols', int((lp[:, :-1] == -10.0).sum()))
     r = decode_and_check(lp, k, dsel, mon, ctx, info)
     if r is None:
         return
